@@ -535,7 +535,6 @@ func vChooseCorpusCase(r *vx.Run, docs []vDoc, families []string) vCase {
 	panic("unknown family " + fam)
 }
 
-
 var vRecaseNames = []string{"url-scheme-capitalised", "urls-upper", "all-upper", "words-capitalised"}
 
 // vRecase changes ASCII letter case only (byte offsets and every non-letter byte stay).
@@ -572,7 +571,6 @@ func vRecase(in []byte, kind int) []byte {
 	}
 	return out
 }
-
 
 var vWindowVariants = []string{"lf", "crlf", "accented-prose", "typographic"}
 
